@@ -152,7 +152,7 @@ inline void Driver::copyExperiment(Inst& a, long k) {
 	Inst& c = make(3, false);
 	c.ctx = &a.probe;
 	c.probe.step = (uint64_t)k;
-	c.mem = malloc(sizeof(Instance));
+	c.mem = vhAlloc(sizeof(Instance));
 	{ unsigned char* b = (unsigned char*)c.mem; uint64_t z = 77; for (size_t i = 0; i < sizeof(Instance); ++i) { z = mix(z); b[i] = (unsigned char)z; } }
 	opBegin(c, OP_COPY);
 	c.m = new (c.mem) Instance(*a.m);
